@@ -694,16 +694,24 @@ impl<'de> Deserializer<'de> {
         bytes.extend_from_slice(&id.inner);
         visitor.visit_byte_buf(bytes)
     }
+    /// Read the length of a vector that is expected to be a blob. The wire type must be a blob too,
+    /// except that an empty vector of any element type coerces to the empty blob.
+    fn read_blob_len(&mut self) -> Result<usize> {
+        check!(self.expect_type.is_blob(&self.table), "blob");
+        if self.wire_type.is_blob(&self.table) {
+            return self.read_len();
+        }
+        check!(matches!(self.wire_type.as_ref(), TypeInner::Vec(_)), "blob");
+        let len = self.read_len()?;
+        check!(len == 0, "blob");
+        Ok(len)
+    }
     fn deserialize_blob<'a, V>(&'a mut self, visitor: V) -> Result<V::Value>
     where
         V: Visitor<'de>,
     {
         self.unroll_type()?;
-        check!(
-            self.expect_type.is_blob(&self.table) && self.wire_type.is_blob(&self.table),
-            "blob"
-        );
-        let len = self.read_len()?;
+        let len = self.read_blob_len()?;
         self.add_cost(len.saturating_add(1))?;
         let blob = self.borrow_bytes(len)?;
         let mut bytes = Vec::with_capacity(len + 1);
